@@ -675,6 +675,10 @@ fn c15_strategy(tier: Tier) -> BoxedStrategy<Case> {
                 }
                 case.span = gen::realize_span(sr, case.haystack.len());
             }
+            if case.haystack.len() > 50_000 {
+                case.haystack.truncate(50_000);
+                case.span = gen::realize_span(sr, case.haystack.len());
+            }
             case.packed = Some(pc);
             // every 8th case: a valid UTF-8 haystack over multi-byte characters
             // (the &str replace routines must not panic on byte patterns that
